@@ -62,6 +62,9 @@ Definition ctl_attr (seen : list ckind) (i : nat) (a : cattr) : list diag :=
           else [])
       ++ (if negb (cr_allows_multiple ru) && Nat.ltb 1 (count_ckind (ca_kind a) seen)
           then [warn CAnnotationDuplicate (AnComment i)] else [])
+      (* validateAttribute: the route-only annotation is @Method, whose value is checked as a verb wherever the
+         annotation stands (a missing value is, on top of "requires a value", an invalid verb) *)
+      ++ match ca_kind a with CKRouteOnly => verb_diags i (ca_value a) | _ => [] end
   end.
 
 Fixpoint ctl_go (seen : list ckind) (l : list (nat * cattr)) : list diag :=
@@ -95,11 +98,13 @@ Definition run_project (gen : list route -> str * str) (p : list controller) (be
 (* ---------------------------------------------------------------- the property, from its text *)
 
 (* what the text calls an error on a controller comment, said without the validator's case analysis: an
-   annotation name gleece does not know, or an annotation that must carry a value and has none *)
+   annotation name gleece does not know, an annotation that must carry a value and has none, or a @Method
+   ("the verb is a supported one") whose verb is not one of the supported ones *)
 Definition needs_value (k : ckind) : bool :=
   match k with CKTag | CKRoute | CKSecurity | CKRouteOnly => true | _ => false end.
 Definition ctl_comment_in_error (attrs : list cattr) : bool :=
-  existsb (fun a => ckind_eqb (ca_kind a) CKUnknown || (needs_value (ca_kind a) && is_nil (ca_value a))) attrs.
+  existsb (fun a => ckind_eqb (ca_kind a) CKUnknown || (needs_value (ca_kind a) && is_nil (ca_value a))
+                    || (ckind_eqb (ca_kind a) CKRouteOnly && negb (smem (ca_value a) supported_verbs))) attrs.
 
 (* "if any error-severity diagnostic exists anywhere in the project the command fails and writes neither
    routes nor spec", for an error on a controller's own comment: [impl_diags] = what the implementation
